@@ -128,7 +128,7 @@ func genSendTok(r *Rng) string {
 }
 
 var respModes = []string{"match", "match", "match", "other", "prefix", "caseflip", "caseflip1", "padless", "spaced", "emptymap", "emptyack", "extrabefore", "extraafter", "garbage", "nonmap",
-	"binack", "trunc", "trailing", "eof", "sil", "dupack", "dupack2", "extralong", "extraafter", "extralong",
+	"binack", "trunc", "trailing", "eof", "sil", "late", "late", "dupack", "dupack2", "extralong", "extraafter", "extralong",
 	"extracut1", "extracut3", "extracut6", "extracut11", "extracut13", "extracut14"}
 var pongModes = []string{"honest", "honest", "honest", "authfalse", "wrongkey", "wrongsalt", "wrongnonce", "wronghost", "reflect", "replay",
 	"emptydigest", "truncdigest", "trunc", "garbage", "upper", "none", "sil"}
@@ -257,6 +257,21 @@ func genTcp(o *Out, r *Rng, n int, tier string) {
 	for _, hm := range heloModes {
 		o.emit("C05", "SEQ", "CFG("+hx([]byte("secret"))+";f;t;"+hx([]byte("client.example"))+")", "CON(ok;f)", "HS("+hm+";honest;-)",
 			fmt.Sprintf("RAW(%s;-)", hx(r.Bytes(4))), "TP")
+	}
+	// many handshakes on one client (a fresh connection each), then a peer without the key that replays what it recorded: the
+	// salts must all differ, so no recorded PONG fits
+	for _, k := range []int{5, 9, 17, 33} {
+		args := []string{"CFG(" + hx([]byte("secret")) + ";f;t;" + hx([]byte("client.example")) + ")", "CON(ok;f)"}
+		for i := 0; i < k; i++ {
+			args = append(args, "HS(std;honest;-)", "REC(ok;f)")
+		}
+		args = append(args, "HS(std;replay;-)", "TP")
+		o.emit("C05", "SEQ", args...)
+	}
+	// a peer whose ack comes after the read deadline: the send fails, its message is on the wire once, the late ack is left for the next reader
+	for _, ra := range []string{"t", "f"} {
+		o.emit("C08", "SEQ", "CFG(-;"+ra+";t;"+hx([]byte("h"))+")", "CON(ok;f)", fmt.Sprintf("SND(%s;late;-)", pfmOfSize(r, 30)), "TP",
+			fmt.Sprintf("SND(%s;match;-)", pfmOfSize(r, 31)), fmt.Sprintf("SND(%s;late;-)", pfmOfSize(r, 3000)))
 	}
 	for _, sz := range writerEdgeSizes {
 		o.emit("C09", "SEQ", "CFG(-;f;t;"+hx([]byte("h"))+")", "CON(ok;f)", fmt.Sprintf("SND(%s;match;-)", pfmOfSize(r, sz)), fmt.Sprintf("RAW(%s;-)", hx(r.Bytes(3))))
